@@ -314,11 +314,13 @@ PROPS = {
         "case_timeout": 180,
         "rule": "60 generated credentials (one or two subjects, nested nodes with and without id, set-valued terms, one- and "
                 "two-element arrays of nodes, typed literals, @id-typed terms, issuer as string or object, custom context "
-                "served in memory) x five suites (Ed25519Signature2018/2020, JsonWebSignature2020, EcdsaSecp256k1Signature2019, "
-                "BbsBlsSignature2020) x proofValue / detached JWS; the signed JSON is altered at a leaf chosen by index "
+                "served in memory; arrays whose elements differ in size) x six suites (Ed25519Signature2018/2020, JsonWebSignature2020, "
+                "EcdsaSecp256k1Signature2019, BbsBlsSignature2020, Data Integrity ecdsa-2019) x proofValue / detached JWS; the "
+                "signed JSON is altered at a leaf chosen by index "
                 "(changed, deleted), by a defined or an undefined member added at five depths (top, subject, nested object, "
                 "element of a one- and of a two-element array), by reordering / duplicating a set, by changing each of the five "
-                "proof options or the signature, by deleting the proof; verified with default and with strict validation; "
+                "proof options or the signature, by deleting the proof, by a second proof next to the genuine one (foreign type / "
+                "altered copy), by an undefined type value; verified with default and with strict validation; "
                 "non-trivial = the alteration found a place in the document",
         "trusted_base": ["JSON-LD expansion and URDNA2015 (json-gold) are replaced by the `claims` reading of the generated "
                          "fragment (partial)", "signature primitives ideal", "compaction law: undefined members are dropped"],
